@@ -278,6 +278,8 @@ v("C18", "reverse-dest-renamed", LD, '        "-R",\n        "--reverse",\n     
 v("C18", "nodmd-stores-true", LD, '        "--nodmd",\n        dest="include_dmd",\n        action="store_false",', '        "--nodmd",\n        dest="include_dmd",\n        action="store_true",', rules=["C18.R2"])
 v("C18", "mv-runs-cp", LD, "    parser.set_defaults(func=_run_mv)", "    parser.set_defaults(func=_run_cp)", rules=["C18.R3"])
 v("C18", "channels-never-collapsed", LD, "        if (src, dest) in args.srcdests:\n            continue\n        if args.recursive and any(_is_below(src, other) for other, _ in srcdests):\n            continue\n", "", rules=["C18.R4"])
+v("C18", "cp-destination-dir-memo-ignores-dest", LD, 'def _run_cp(args):\n    args, kwargs = _parse_srcdest_args(args)\n    for src, dest in args.srcdests:\n        for srcpath in ilsdrf(src, **kwargs):\n            destpath = os.path.join(dest, os.path.relpath(srcpath, src))\n            destdir = os.path.dirname(destpath)\n            if not os.path.exists(destdir):\n                os.makedirs(destdir)\n            shutil.copy2(srcpath, destpath)\n', 'def _run_cp(args):\n    args, kwargs = _parse_srcdest_args(args)\n    reldir = None\n    for src, dest in args.srcdests:\n        for srcpath in ilsdrf(src, **kwargs):\n            srcdir, name = os.path.split(os.path.relpath(srcpath, src))\n            if srcdir != reldir:\n                reldir = srcdir\n                destdir = os.path.join(dest, reldir)\n                if not os.path.exists(destdir):\n                    os.makedirs(destdir)\n            destpath = os.path.join(destdir, name)\n            shutil.copy2(srcpath, destpath)\n', rules=["C18.R1"])
+v("C18", "twin-cp-loop-in-generator", LD, 'def _run_cp(args):\n    args, kwargs = _parse_srcdest_args(args)\n    for src, dest in args.srcdests:\n        for srcpath in ilsdrf(src, **kwargs):\n            destpath = os.path.join(dest, os.path.relpath(srcpath, src))\n            destdir = os.path.dirname(destpath)\n            if not os.path.exists(destdir):\n                os.makedirs(destdir)\n            shutil.copy2(srcpath, destpath)\n', 'def _transfers(srcdests, kwargs):\n    for src, dest in srcdests:\n        for srcpath in ilsdrf(src, **kwargs):\n            destpath = os.path.join(dest, os.path.relpath(srcpath, src))\n            destdir = os.path.dirname(destpath)\n            if not os.path.exists(destdir):\n                os.makedirs(destdir)\n            yield srcpath, destpath\n\n\ndef _run_cp(args):\n    args, kwargs = _parse_srcdest_args(args)\n    for srcpath, destpath in _transfers(args.srcdests, kwargs):\n        shutil.copy2(srcpath, destpath)\n', expect="silent")
 v("C18", "twin-below-by-sep", LD, '    return path.startswith(os.path.join(top, ""))', "    return path.startswith(top + os.sep)", expect="silent")
 v("C01", "complex-cast-type-native", RF, "                    ).newbyteorder(self.realdtype.byteorder)\n", "                    )\n", rules=["C01.R7"])
 v("C01", "twin-complex-cast-type-via-byteorder-attr", RF, "                    ).newbyteorder(self.realdtype.byteorder)\n", "                    ).newbyteorder(self.structdtype[\"r\"].byteorder)\n", expect="analysis-error")
@@ -332,6 +334,8 @@ v("C14", "channel-listdir-unguarded", LD, "            try:\n                any
 v("C14", "file-time-overflow-unguarded", LD, "            except OverflowError:\n                # name fits the pattern but its number is not a time, skip\n                continue\n",
   "            except KeyError:\n                continue\n", rules=["C14.R9"])
 v("C14", "subdir-date-handler-reraises", LD, "                others.append(d)\n                continue\n            time = dt - util.epoch", "                raise\n            time = dt - util.epoch", rules=["C14.R9"])
+v("C14", "start-bound-floored-to-ms", LD, "        starttime = starttime - util.epoch\n", "        starttime = starttime - util.epoch\n        starttime = datetime.timedelta(milliseconds=starttime // datetime.timedelta(milliseconds=1))\n", rules=["C14.R10"])
+v("C14", "twin-bounds-via-temporary", LD, "        starttime = starttime - util.epoch\n", "        since_epoch = starttime - util.epoch\n        starttime = since_epoch\n", expect="silent")
 v("C14", "twin-sort-call-style", LD, "    dec_subdirs.sort()\n    subdir_slice", "    dec_subdirs.sort()  # ascending time\n    subdir_slice", expect="silent")
 
 
